@@ -1,4 +1,4 @@
 From Coq Require Extraction ExtrOcamlBasic.
-From Wz Require Import lib.Bytes lib.Utf8 lib.ExtractBase C13.Gen C13.Model.
+From Wz Require Import lib.Bytes lib.Utf8 lib.ExtractBase C13.Gen C13.Model C13.JarMatchModel.
 Extraction Language OCaml.
-Extraction "C13/model_extracted.ml" force_types dump_pair dump_cookie parse_cookie_sansio parse_cookie_environ jar_request_header jar_decoded.
+Extraction "C13/model_extracted.ml" force_types dump_pair dump_cookie parse_cookie_sansio parse_cookie_environ jar_request_header jar_decoded jar_matches.
